@@ -684,7 +684,7 @@ def realize(v):
     if k == 'counter':
         c = collections.Counter()
         for a, n in v[1]:
-            c[realize(a)] = int(n)
+            c[realize(a)] = n if isinstance(n, (float, str)) else int(n)    # a non-int count violates the implicit value hint
         return c
     raise ValueError('unknown value AST %r' % (v,))
 
@@ -791,6 +791,9 @@ def _leaf(hashable):
         st.just(['none']),
         st.sampled_from(['Any', 'object']).map(lambda a: ['any', a]),
         st.lists(_lit_vals, min_size=1, max_size=3, unique_by=repr).map(lambda l: ['lit', l]),
+        # members that are equal but of different types (True == 1, False == 0): distinct members of one Literal, in both orders
+        st.sampled_from([[['b', True], ['i', 1]], [['b', False], ['i', 0]], [['i', 1], ['b', True]], [['i', 0], ['b', False]],
+                         [['b', True], ['i', 1], ['s', 'a']], [['n'], ['b', False], ['i', 0]]]).map(lambda l: ['lit', l]),
         st.sampled_from(sorted(TYPEVARS)).map(lambda t: ['tv', t]),
         st.sampled_from(sorted(n for n in NEWTYPES if not hashable or n != 'VNTIntList')).map(lambda t: ['nt', t]),
         st.sampled_from(sorted(a for a in ALIASES if not hashable or a != 'AIntList')).map(lambda t: ['alias', t]),
@@ -1103,7 +1106,7 @@ def violating(draw, node, hashable=False):
     if k == 'map':
         modes += ['key', 'value', 'value', 'allvalues']
     if k == 'counter':
-        modes += ['key']
+        modes += ['key', 'count', 'count']
     if k == 'tupf':
         modes += ['len', 'pos', 'pos'] if node[1] else ['len']
     if k == 'union':
@@ -1135,6 +1138,20 @@ def violating(draw, node, hashable=False):
             return None
         items[i] = sub[0]
         return [base[0], items], {'mode': 'item', 'kind': k, 'index': i, 'len': len(items), 'inner': sub[1]}
+    if mode == 'count':
+        # a Counter whose keys conform but one (or every) count is not an int: Counter[K] implies the value hint int
+        n = draw(st.sampled_from([1, 1, 2, 3]))
+        base = draw(conforming(node, hashable, st.just(n)))
+        if base[0] != 'counter' or not base[1]:
+            return None
+        pairs = [list(p) for p in base[1]]
+        bad = draw(st.sampled_from([1.5, 'x']))
+        if draw(st.booleans()):
+            pairs[0][1] = bad
+        else:
+            for p_ in pairs:
+                p_[1] = bad
+        return ['counter', pairs], {'mode': 'count', 'kind': k}
     if mode in ('key', 'value', 'allvalues'):
         n = draw(st.sampled_from([1, 2, 3, 4]))
         base = draw(conforming(node, hashable, st.just(n)))
